@@ -41,10 +41,11 @@ pub struct Variant {
 pub fn variants(c: &Case) -> Variant {
     let mut g = GenCfg::full();
     g.max_stmts = 40;
-    let b = build(&c.entropy, &g);
-    let (original, _) = b.prog.render();
+    // (feature "source:imports": a project of two files with imports of every form, see c07x)
+    let prog = if c.features.iter().any(|f| f == "source:imports") { crate::props::c07x::import_pair(&c.entropy).original } else { build(&c.entropy, &g).prog };
+    let (original, _) = prog.render();
     let mut f = RandFiller::new(&c.trivia, cfg(&c.features));
-    let (variant, _) = b.prog.render_with(&mut f);
+    let (variant, _) = prog.render_with(&mut f);
     Variant { original, variant, slots_changed: f.slots_changed, comments: f.comments, case_flips: f.case_flips, crlf: f.used_crlf, features: f.features.clone() }
 }
 
@@ -128,9 +129,11 @@ pub fn strategy(features: Vec<String>) -> impl Strategy<Value = Case> {
 }
 
 pub fn run_check(ctx: &mut Ctx) {
-    ctx.rule = "generator programs (whole statement grammar) rendered canonically and with random trivia in every slot the grammar allows (spaces, tabs, block/line/nested/multi-line/non-ASCII comments with code-like text, blank lines), CRLF line ends and case flips of mnemonics, directives, registers, hex digits, as/from/else, encodings, true/false. oracle: segment bytes, symbol table (path, value, type) and sorted diagnostic messages of variant == original. non-trivial = >= 3 slots changed incl. a comment or a case flip".into();
+    ctx.rule = "generator programs (whole statement grammar; and two-file projects with imports of every form) rendered canonically and with random trivia in every slot the grammar allows (spaces, tabs, block/line/nested/multi-line/non-ASCII comments with code-like text, blank lines), CRLF line ends and case flips of mnemonics, directives, registers, hex digits, as/from/else, encodings, true/false. oracle: segment bytes, symbol table (path, value, type) and sorted diagnostic messages of variant == original. non-trivial = >= 3 slots changed incl. a comment or a case flip".into();
     let n = ctx.tier.pick(40_000, 1_000_000);
     ctx.campaign_parallel("clean-domain", n, 16, || strategy(vec![]), prop, to_json);
+    let n3 = ctx.tier.pick(8000, 150_000);
+    ctx.campaign_parallel("imports", n3, 16, || strategy(vec!["source:imports".to_string()]), prop, to_json);
     let n2 = ctx.tier.pick(1500, 20_000);
     ctx.campaign_parallel("feature:empty_line_comment", n2, 8, || strategy(vec!["empty_line_comment".to_string()]), prop, to_json);
     let total = ctx.evaluations.max(1);
